@@ -57,6 +57,21 @@ func keyEmuScenarios(big, withMapping bool) []*Desc {
 		if withMapping {
 			d.Name = "keyemu-map-" + variant
 			d.Mappings = append(d.Mappings, MapDesc{Name: "M1", Keys: km{K1: {61, 0}}})
+			// a third mapping emulates keys with the SAME axis, but with other notes and with the opposite choice of
+			// directions (a direction that has a note in M0 has none here and vice versa): what was started under one
+			// mapping must still be released when the stick returns under the other
+			m2 := MapDesc{Name: "M2", Keys: km{K1: {62, 0}}}
+			for _, a := range ax {
+				b := a
+				b.Note = a.Note + 7
+				if a.NoteNeg >= 0 {
+					b.NoteNeg = -1
+				} else {
+					b.NoteNeg = a.Note - 7
+				}
+				m2.Axes = append(m2.Axes, b)
+			}
+			d.Mappings = append(d.Mappings, m2)
 			acts(d, MU, "mapping_up", MD, "mapping_down", OU, "octave_up", PA, "panic", LE, "cc_learning")
 			d.OctLo, d.OctHi = 0, 1
 		} else {
